@@ -1,4 +1,5 @@
 import Secp.Proofs.LimbGroup
+import Secp.Proofs.AffPt
 import Secp.Proofs.CrossMul
 import Secp.Proofs.FieldConv
 import Secp.Proofs.Fermat
@@ -9,7 +10,6 @@ import Secp.Spec.Sec1
 -/
 open Spec WeierstrassCurve
 
-abbrev FL := Hand.limbOps
 
 /-- field inversion by the generated chain: `x⁻¹`, `0 ↦ 0`, result canonical -/
 theorem limb_invert {a : L4} (ha : limbOk a) :
@@ -22,10 +22,6 @@ theorem limb_bytes {a : L4} (ha : a.ok) : Hand.Fp.bytes a = i2osp (limbVal a).va
   obtain ⟨ok, ev⟩ := limb_fromMont ha
   unfold Hand.Fp.bytes
   rw [limbsToBytes_spec _ ok, ev]
-
-/-- the abstract affine point denoted by a projective triple -/
-noncomputable def affPt (P : Pt L4) : APoint :=
-  if limbVal P.z = 0 then none else some ((limbVal P.x / limbVal P.z).val, (limbVal P.y / limbVal P.z).val)
 
 /-- `affine()`: (x/z, y/z), or (0, 1) for the identity; canonical -/
 theorem affine_spec (P : Pt L4) (hP : PtOk limbLawful P) :
